@@ -38,11 +38,15 @@ def metas_of(t, out):
     return out
 
 
-def outcome(p, data, shift=0):
+def outcome(p, data, shift=0, skip_chars=False):
     from lark.exceptions import UnexpectedInput, UnexpectedCharacters, UnexpectedToken, UnexpectedEOF, ParseError
     try:
         with guarded(8):
-            t = p.parse(data)
+            if skip_chars:
+                # error recovery: unmatched characters are skipped (on_error returns True for them), anything else is re-raised
+                t = p.parse(data, on_error=lambda e: isinstance(e, UnexpectedCharacters))
+            else:
+                t = p.parse(data)
         return {'ok': True, 'tree': canon(t, shift), 'toks': toks_of(t, []), 'metas': metas_of(t, [])}
     except UnexpectedCharacters as e:
         return {'ok': False, 'err': 'UnexpectedCharacters', 'pos': e.pos_in_stream - shift, 'lc': [e.line, e.column]}
@@ -87,11 +91,74 @@ def _case(args):
                 rec['slice'] = outcome(ps, TextSlice(buf, a, b), shift=a)
                 rec['slice_bytes'] = outcome(pb, TextSlice(buf.encode('ascii'), a, b), shift=a)
             recs.append(rec)
+            if parser == 'lalr' and rng.random() < 0.5:
+                # the same through on_error recovery over junk characters
+                k = rng.randint(0, len(s)); s2 = s[:k] + rng.choice(['?', '??', '?\n?']) + s[k:]
+                buf2 = pre + s2 + suf; b2 = a + len(s2)
+                rec2 = {'cfg': [parser, lexer], 'text': s2, 'buffer': buf2, 'window': [a, b2], 'on_error': 'skip unmatched characters'}
+                rec2['str'] = outcome(ps, s2, skip_chars=True)
+                rec2['bytes'] = outcome(pb, s2.encode('ascii'), skip_chars=True)
+                rec2['slice'] = outcome(ps, TextSlice(buf2, a, b2), shift=a, skip_chars=True)
+                rec2['slice_bytes'] = outcome(pb, TextSlice(buf2.encode('ascii'), a, b2), shift=a, skip_chars=True)
+                recs.append(rec2)
     return {'grammar': g, 'recs': recs}
+
+
+def _custom_lexer_case(seed):
+    """lexers that do not understand TextSlice (custom lexer classes of interface 0 and 1): a window is either refused (TypeError) or, when it is the
+    whole buffer, parsed like the plain text — never silently parsed as something else"""
+    from lark import Lark, Token
+    from lark.lexer import Lexer
+    from lark.utils import TextSlice
+    from lark.exceptions import UnexpectedInput
+    rng = random.Random(seed)
+    class L0(Lexer):
+        __future_interface__ = 0
+        def __init__(self, conf): pass
+        def lex(self, text):
+            pos = 0
+            for w in text.split(' '):
+                if w: yield Token('W', w, pos)
+                pos += len(w) + 1
+    class L1(Lexer):
+        __future_interface__ = 1
+        def __init__(self, conf): pass
+        def lex(self, lexer_state, parser_state):
+            text = lexer_state.text.text if hasattr(lexer_state.text, 'text') else lexer_state.text
+            for w in text.split(' '):
+                if w: yield Token('W', w)
+    out = []
+    for cls in (L0, L1):
+        p = Lark('start: W+\n%declare W\n', parser='lalr', lexer=cls)
+        for _ in range(6):
+            buf = ' '.join(rng.choice(['a', 'bb', 'c']) for _ in range(rng.randint(1, 5)))
+            a = rng.choice([0, 0, 0, rng.randint(0, len(buf))]); b = rng.choice([len(buf), rng.randint(a, len(buf))])
+            want = [w for w in buf[a:b].split(' ') if w]
+            try:
+                t = p.parse(TextSlice(buf, a, b))
+                got = [str(c) for c in t.children]
+            except TypeError:
+                got = 'TypeError'
+            except UnexpectedInput:
+                got = 'rejected'
+            ok = got == 'TypeError' and (a, b) != (0, len(buf)) or (got == want) or (got == 'rejected' and not want)
+            out.append({'interface': cls.__future_interface__, 'buffer': buf, 'window': [a, b], 'got': got, 'words_in_window': want, 'ok': bool(ok)})
+    return out
 
 
 def run(ctx, res):
     rng = random.Random(ctx['seed'] * 1000003 + 15)
+    cl_seeds = [rng.randrange(1 << 30) for _ in range(tier_scale(ctx['tier'], 40, 400))]
+    for seed, (st, recs_) in zip(cl_seeds, pmap(_custom_lexer_case, cl_seeds, chunksize=8)):
+        if st != 'ok':
+            if st == 'exc' and not exc_in_lark(recs_):
+                raise InfraError(recs_)
+            res.violation('a custom lexer over a TextSlice raised an unexpected exception', {'seed': seed, 'detail': recs_}); continue
+        for r in recs_:
+            res.case(['custom_lexer', r['interface'], r['buffer'], r['window']], nontrivial=r['window'] != [0, len(r['buffer'])])
+            res.count('custom_lexer_windows')
+            if not r['ok']:
+                res.violation('a lexer that does not support TextSlice was handed a window and the result is neither a TypeError nor the parse of the window', r)
     N = tier_scale(ctx['tier'], 500, 9000) * (3 if ctx['deepen'] else 1)
     jobs = []
     for i in range(N):
